@@ -108,38 +108,230 @@ theorem splitMany_spec (cap : Int) (exts : List DExt) (muxes : List DSig) :
 
 /-! ### second loop -/
 
-theorem placeMuxes_spec (cap : Int) (exts : List DExt) (muxes : List DSig) :
-    ∀ (work : List ((DSig × List DSig) × Nat)) (top top' : List Item),
-    placeMuxes cap exts muxes work top = .ok top' → TopInv cap top →
-    (∀ w ∈ work, ∀ k ∈ w.1.2, 0 < k.size) →
-    TopInv cap top' ∧ ∃ ns : List MuxNode, top'.Perm (ns.map Item.mux ++ top) ∧
-      List.Forall₂ (fun w n => importMux exts w.1.1 w.1.2 = .ok n) work ns
-  | [], top, top', h, hinv, _ => by
+/-- the built multiplexers that wait for their parent are what `nested` says -/
+structure NestInv (nested : List MuxNode) (extra : List (Nat × DSig)) : Prop where
+  wf : ∀ n ∈ nested, MuxWF n
+  link : ∀ n ∈ nested, LinkOK nested n
+  pend : ∀ p ∈ extra, p.2.isMultiplexor = true ∧ 0 < p.2.size ∧
+    ∃ n ∈ nested, n.name = p.2.name ∧ ((p.2.size : Nat) : Int) = n.groupSize + n.selW ∧ sigPos p.2 = n.start
+
+theorem LinkOK.mono {nested : List MuxNode} {p : MuxNode} (h : LinkOK nested p) (more : List MuxNode) :
+    LinkOK (nested ++ more) p := by
+  intro c hc hm
+  obtain ⟨n, hn, h1⟩ := h c hc hm
+  exact ⟨n, List.mem_append.2 (Or.inl hn), h1⟩
+
+theorem mem_pendingFor (extra : List (Nat × DSig)) (j : Nat) (k : DSig) (h : k ∈ pendingFor extra j) :
+    ∃ p ∈ extra, p.2 = k := by
+  unfold pendingFor at h
+  obtain ⟨p, hp, rfl⟩ := List.mem_map.1 h
+  exact ⟨p, (List.mem_filter.1 hp).1, rfl⟩
+
+/-- the node built for a multiplexor links to the nodes of its nested children -/
+theorem importMux_link (exts : List DExt) (mx : DSig) (kids : List DSig) (j : Nat)
+    (nested : List MuxNode) (extra : List (Nat × DSig)) (n : MuxNode)
+    (hinv : NestInv nested extra) (hkids : ∀ k ∈ kids, 0 < k.size ∧ k.isMultiplexor = false)
+    (h : importMux exts mx (kids ++ pendingFor extra j) = .ok n) :
+    MuxWF n ∧ LinkOK nested n := by
+  have hpos : ∀ k ∈ kids ++ pendingFor extra j, 0 < k.size := by
+    intro k hk
+    rcases List.mem_append.1 hk with h1 | h1
+    · exact (hkids k h1).1
+    · obtain ⟨p, hp, rfl⟩ := mem_pendingFor extra j k h1
+      exact (hinv.pend p hp).2.1
+  obtain ⟨hwf, _, hstart, hgc, _, hfa⟩ := importMux_spec exts mx _ n h hpos
+  have hsel := importMux_size exts mx _ n h
+  have hw : n.selW = (mx.size : Int) := selW_eq n mx.size hwf hgc hsel
+  refine ⟨hwf, ?_⟩
+  intro c hc hm
+  obtain ⟨k, hk, r1, r2, r3, _, r5⟩ := forall2_mem_right hfa c hc
+  rw [hm] at r5
+  have hkp : k ∈ pendingFor extra j := by
+    rcases List.mem_append.1 hk with h1 | h1
+    · have := (hkids k h1).2
+      rw [this] at r5; cases r5
+    · exact h1
+  obtain ⟨p, hp, rfl⟩ := mem_pendingFor extra j k hkp
+  obtain ⟨_, _, n', hn', e1, e2, e3⟩ := hinv.pend p hp
+  refine ⟨n', hn', by rw [e1, r1], by rw [r3, e2], ?_⟩
+  rw [← e3, hstart, hw, r2]
+  omega
+
+structure WorkOK (work : List ((DSig × List DSig) × Nat)) : Prop where
+  mux : ∀ w ∈ work, w.1.1.isMultiplexor = true
+  kids : ∀ w ∈ work, ∀ k ∈ w.1.2, 0 < k.size ∧ k.isMultiplexor = false
+
+theorem WorkOK.tail {w : (DSig × List DSig) × Nat} {rest : List ((DSig × List DSig) × Nat)}
+    (h : WorkOK (w :: rest)) : WorkOK rest :=
+  ⟨fun x hx => h.mux x (List.mem_cons_of_mem _ hx), fun x hx => h.kids x (List.mem_cons_of_mem _ hx)⟩
+
+/-- validity is kept by the second loop, nested multiplexors included -/
+theorem placeMuxes_wf (cap : Int) (exts : List DExt) (muxes : List DSig) :
+    ∀ (work : List ((DSig × List DSig) × Nat)) (top : List Item) (nested : List MuxNode)
+      (extra : List (Nat × DSig)) (top' : List Item) (nested' : List MuxNode),
+    placeMuxes cap exts muxes work top nested extra = .ok (top', nested') → TopInv cap top →
+    NestInv nested extra → (∀ n, Item.mux n ∈ top → LinkOK nested n) → WorkOK work →
+    TopInv cap top' ∧ (∀ n ∈ nested', MuxWF n) ∧ (∀ n ∈ nested', LinkOK nested' n) ∧
+      (∀ n, Item.mux n ∈ top' → LinkOK nested' n) ∧ (∀ w ∈ work, 1 ≤ w.1.1.size)
+  | [], top, nested, extra, top', nested', h, hinv, hn, hl, _ => by
     simp only [placeMuxes] at h
     injection h with h
-    subst h
-    exact ⟨hinv, [], by simp, List.Forall₂.nil⟩
-  | ((mx, kids), j) :: rest, top, top', h, hinv, hpos => by
+    injection h with h1 h2
+    subst h1; subst h2
+    exact ⟨hinv, hn.wf, hn.link, hl, fun w hw => by cases hw⟩
+  | ((mx, kids), j) :: rest, top, nested, extra, top', nested', h, hinv, hn, hl, hw => by
     unfold placeMuxes at h
     split at h
     · cases h
     · rename_i n hmux
+      obtain ⟨hwf, hlink⟩ := importMux_link exts mx kids j nested extra n hn
+        (hw.kids ((mx, kids), j) (List.mem_cons_self ..)) hmux
+      have hsz1 := importMux_size exts mx _ n hmux
+      have hcons : ∀ {P : Prop}, (P ∧ ∀ w ∈ rest, 1 ≤ w.1.1.size) →
+          (P ∧ ∀ w ∈ ((mx, kids), j) :: rest, 1 ≤ w.1.1.size) := by
+        intro P hp
+        refine ⟨hp.1, fun w hw' => ?_⟩
+        rcases List.mem_cons.1 hw' with rfl | hw'
+        · exact hsz1
+        · exact hp.2 w hw'
       split at h
       · split at h
         · cases h
         · rename_i top1 hins
-          have hkpos : ∀ k ∈ kids, 0 < k.size := hpos ((mx, kids), j) (List.mem_cons_self ..)
-          obtain ⟨hwf, _⟩ := importMux_spec exts mx kids n hmux hkpos
           obtain ⟨hinv1, hp1⟩ := insertTop_inv cap top top1 (.mux n) hins (muxItem_size_pos n hwf)
             (fun n' hn' => by injection hn' with hn'; subst hn'; exact hwf) hinv
-          obtain ⟨hinv', ns, hp', hfa⟩ := placeMuxes_spec cap exts muxes rest top1 top' h hinv1
-            (fun w hw => hpos w (List.mem_cons_of_mem _ hw))
-          refine ⟨hinv', n :: ns, ?_, List.Forall₂.cons hmux hfa⟩
-          simp only [List.map_cons, List.cons_append]
-          exact hp'.trans ((List.Perm.append_left _ hp1).trans List.perm_middle)
+          have hrec := placeMuxes_wf cap exts muxes rest top1 nested extra top' nested' h hinv1 hn ?_ hw.tail
+          · obtain ⟨a, b, c, d, e⟩ := hrec
+            exact ⟨a, b, c, (hcons ⟨d, e⟩).1, (hcons ⟨d, e⟩).2⟩
+          intro n' hn'
+          rcases List.mem_cons.1 (hp1.mem_iff.1 hn') with h1 | h1
+          · injection h1 with h1; subst h1; exact hlink
+          · exact hl n' h1
       · split at h
         · cases h
-        · split at h <;> cases h
+        · split at h
+          · cases h
+          · have hmxm := hw.mux ((mx, kids), j) (List.mem_cons_self ..)
+            have htot : 0 < n.groupSize + n.selW := muxItem_size_pos n hwf
+            have hrec := placeMuxes_wf cap exts muxes rest top (nested ++ [n]) _ top' nested' h hinv ?_ ?_ hw.tail
+            · obtain ⟨a, b, c, d, e⟩ := hrec
+              exact ⟨a, b, c, (hcons ⟨d, e⟩).1, (hcons ⟨d, e⟩).2⟩
+            · refine ⟨?_, ?_, ?_⟩
+              · intro x hx
+                rcases List.mem_append.1 hx with h1 | h1
+                · exact hn.wf x h1
+                · rw [List.mem_singleton] at h1; subst h1; exact hwf
+              · intro x hx
+                rcases List.mem_append.1 hx with h1 | h1
+                · exact (hn.link x h1).mono [n]
+                · rw [List.mem_singleton] at h1; subst h1; exact hlink.mono [x]
+              · intro p hp
+                rcases List.mem_append.1 hp with h1 | h1
+                · obtain ⟨a, b, n', hn', c⟩ := hn.pend p h1
+                  exact ⟨a, b, n', List.mem_append.2 (Or.inl hn'), c⟩
+                · rw [List.mem_singleton] at h1
+                  subst h1
+                  have hsz : (((nestedKid mx n).size : Nat) : Int) = n.groupSize + n.selW := by
+                    show (((n.groupSize + n.selW).toNat : Nat) : Int) = n.groupSize + n.selW
+                    exact Int.toNat_of_nonneg (by omega)
+                  refine ⟨hmxm, ?_, n, List.mem_append.2 (Or.inr (List.mem_singleton.2 rfl)), ?_, hsz, ?_⟩
+                  · show 0 < (nestedKid mx n).size
+                    have : ((nestedKid mx n).size : Int) > 0 := by rw [hsz]; exact htot
+                    omega
+                  · have := (importMux_spec exts mx _ n hmux ?_).2.1
+                    · exact this
+                    · intro k hk
+                      rcases List.mem_append.1 hk with h1 | h1
+                      · exact ((hw.kids ((mx, kids), j) (List.mem_cons_self ..)) k h1).1
+                      · obtain ⟨p, hp', rfl⟩ := mem_pendingFor extra j k h1
+                        exact (hn.pend p hp').2.1
+                  · have := (importMux_spec exts mx _ n hmux ?_).2.2.1
+                    · exact this.symm
+                    · intro k hk
+                      rcases List.mem_append.1 hk with h1 | h1
+                      · exact ((hw.kids ((mx, kids), j) (List.mem_cons_self ..)) k h1).1
+                      · obtain ⟨p, hp', rfl⟩ := mem_pendingFor extra j k h1
+                        exact (hn.pend p hp').2.1
+            · intro n' hn'
+              exact (hl n' hn').mono [n]
+
+/-- without extended entries for the multiplexors nothing is nested: the loop inserts every
+    multiplexer at the top level -/
+theorem placeMuxes_flat (cap : Int) (exts : List DExt) (muxes : List DSig) :
+    ∀ (work : List ((DSig × List DSig) × Nat)) (top : List Item) (nested : List MuxNode)
+      (top' : List Item) (nested' : List MuxNode),
+    placeMuxes cap exts muxes work top nested [] = .ok (top', nested') →
+    (∀ w ∈ work, findExt exts w.1.1.name = none) →
+    nested' = nested ∧ ∃ ns : List MuxNode, top'.Perm (ns.map Item.mux ++ top) ∧
+      List.Forall₂ (fun w n => importMux exts w.1.1 w.1.2 = .ok n) work ns
+  | [], top, nested, top', nested', h, _ => by
+    simp only [placeMuxes] at h
+    injection h with h
+    injection h with h1 h2
+    subst h1; subst h2
+    exact ⟨rfl, [], by simp, List.Forall₂.nil⟩
+  | ((mx, kids), j) :: rest, top, nested, top', nested', h, hflat => by
+    unfold placeMuxes at h
+    have hp0 : pendingFor [] j = [] := rfl
+    rw [hp0, List.append_nil] at h
+    split at h
+    · cases h
+    · rename_i n hmux
+      have hnone := hflat ((mx, kids), j) (List.mem_cons_self ..)
+      simp only at hnone
+      rw [hnone] at h
+      dsimp only at h
+      split at h
+      · cases h
+      · rename_i top1 hins
+        obtain ⟨hn', ns, hp', hfa⟩ := placeMuxes_flat cap exts muxes rest top1 nested top' nested' h
+          (fun w hw => hflat w (List.mem_cons_of_mem _ hw))
+        refine ⟨hn', n :: ns, ?_, List.Forall₂.cons hmux hfa⟩
+        simp only [List.map_cons, List.cons_append]
+        obtain ⟨heq, _⟩ : top1 = insertItem (.mux n) top ∧ True := by
+          unfold insertTop at hins
+          split at hins
+          · cases hins
+          · split at hins
+            · cases hins
+            · split at hins
+              · cases hins
+              · injection hins with hins
+                exact ⟨hins.symm, trivial⟩
+        exact hp'.trans ((List.Perm.append_left _ (heq ▸ insertItem_perm _ _)).trans List.perm_middle)
+
+theorem placeMuxes_length (cap : Int) (exts : List DExt) (muxes : List DSig) :
+    ∀ (work : List ((DSig × List DSig) × Nat)) (top : List Item) (nested : List MuxNode)
+      (extra : List (Nat × DSig)) (top' : List Item) (nested' : List MuxNode),
+    placeMuxes cap exts muxes work top nested extra = .ok (top', nested') →
+    nested.length ≤ nested'.length ∧
+    (nested'.length = nested.length → ∀ w ∈ work, findExt exts w.1.1.name = none)
+  | [], top, nested, extra, top', nested', h => by
+    simp only [placeMuxes] at h
+    injection h with h
+    injection h with h1 h2
+    subst h1; subst h2
+    exact ⟨Nat.le_refl _, fun _ w hw => by cases hw⟩
+  | ((mx, kids), j) :: rest, top, nested, extra, top', nested', h => by
+    unfold placeMuxes at h
+    split at h
+    · cases h
+    · split at h
+      · rename_i hnone
+        split at h
+        · cases h
+        · obtain ⟨a, b⟩ := placeMuxes_length cap exts muxes rest _ nested extra top' nested' h
+          refine ⟨a, fun hl w hw => ?_⟩
+          rcases List.mem_cons.1 hw with rfl | hw
+          · exact hnone
+          · exact b hl w hw
+      · split at h
+        · cases h
+        · split at h
+          · cases h
+          · obtain ⟨a, _⟩ := placeMuxes_length cap exts muxes rest top (nested ++ [_]) _ top' nested' h
+            rw [List.length_append, List.length_singleton] at a
+            exact ⟨by omega, fun hl => by omega⟩
 
 theorem forall2_matching (exts : List DExt) (g : ((DSig × List DSig) × Nat) → List DSig) :
     ∀ (work : List ((DSig × List DSig) × Nat)) (ns : List MuxNode),
@@ -170,9 +362,12 @@ theorem zip_flatMap_perm : ∀ (Z : List (DSig × List DSig)),
     exact List.Perm.append_right _ List.perm_append_comm
 
 theorem importMany_case (cap : Int) (exts : List DExt) (muxes sorted : List DSig) (top' : List Item)
-    (h : importMany cap exts muxes sorted = .ok top') (hcap : 0 ≤ cap) :
-    TopInv cap top' ∧
-    ((∀ s ∈ sorted, isMuxName muxes s = s.isMultiplexor) → muxes = sorted.filter (·.isMultiplexor) →
+    (nested' : List MuxNode)
+    (h : importMany cap exts muxes sorted = .ok (top', nested')) (hcap : 0 ≤ cap)
+    (hmuxes : muxes = sorted.filter (·.isMultiplexor)) :
+    TopInv cap top' ∧ (∀ n ∈ nested', MuxWF n) ∧ (∀ n ∈ nested', LinkOK nested' n) ∧
+    (∀ n, Item.mux n ∈ top' → LinkOK nested' n) ∧ (∀ x ∈ muxes, 1 ≤ x.size) ∧
+    ((∀ s ∈ sorted, isMuxName muxes s = s.isMultiplexor) → nested' = [] →
       Matching exts sorted (entriesOf top')) := by
   unfold importMany at h
   split at h
@@ -200,8 +395,38 @@ theorem importMany_case (cap : Int) (exts : List DExt) (muxes sorted : List DSig
       intro w hw k hk
       obtain ⟨h1, h2⟩ := hgmem k ((hwork w hw).2 k hk)
       exact hpos k h1 h2
-    obtain ⟨hinv', ns, hp', hfa⟩ := placeMuxes_spec cap exts muxes _ top1 top' h hinv1 hkpos
-    refine ⟨hinv', fun hnames hmuxes => ?_⟩
+    have hwok : WorkOK ((muxes.zip groups).zipIdx.reverse) := by
+      refine ⟨?_, ?_⟩
+      · intro w hw
+        have := (hwork w hw).1
+        rw [hmuxes] at this
+        exact (List.mem_filter.1 this).2
+      · intro w hw k hk
+        refine ⟨hkpos w hw k hk, ?_⟩
+        obtain ⟨h1, h2⟩ := hgmem k ((hwork w hw).2 k hk)
+        cases hb : k.isMultiplexor
+        · rfl
+        · exfalso
+          have hkm : k ∈ muxes := by rw [hmuxes]; exact List.mem_filter.2 ⟨h1, hb⟩
+          have : isMuxName muxes k = true := List.any_eq_true.2 ⟨k, hkm, by simp⟩
+          rw [h2] at this; cases this
+    obtain ⟨hinv', hnwf, hnlink, htlink, hsel⟩ := placeMuxes_wf cap exts muxes _ top1 [] [] top' nested' h hinv1
+      ⟨fun n hn => (by cases hn), fun n hn => (by cases hn), fun p hp => (by cases hp)⟩
+      (fun n hn => by
+        -- the items inserted by the first loop are leaves
+        have := (hp1.mem_iff).1 hn
+        obtain ⟨s, _, hs'⟩ := List.mem_map.1 this
+        cases hs') hwok
+    have hselM : ∀ x ∈ muxes, 1 ≤ x.size := by
+      intro x hx
+      have hx' : x ∈ (muxes.zip groups).map Prod.fst := by rw [List.map_fst_zip (by omega)]; exact hx
+      obtain ⟨p, hp, rfl⟩ := List.mem_map.1 hx'
+      have hp' : p ∈ ((muxes.zip groups).zipIdx).map Prod.fst := by rw [List.zipIdx_map_fst]; exact hp
+      obtain ⟨w, hw, rfl⟩ := List.mem_map.1 hp'
+      exact hsel w (List.mem_reverse.2 hw)
+    refine ⟨hinv', hnwf, hnlink, htlink, hselM, fun hnames hnil => ?_⟩
+    have hflatW := (placeMuxes_length cap exts muxes _ top1 [] [] top' nested' h).2 (by rw [hnil])
+    obtain ⟨_, ns, hp', hfa⟩ := placeMuxes_flat cap exts muxes _ top1 [] top' nested' h hflatW
     -- per multiplexor
     have hfa' : List.Forall₂ (fun w n => Matching exts (w.1.1 :: w.1.2) (itemEntries (.mux n)))
         ((muxes.zip groups).zipIdx.reverse) ns := by
@@ -283,54 +508,85 @@ theorem sortBy_perm {α : Type} (key : α → Nat) : ∀ l : List α, (sortBy ke
 
 theorem sortSigs_perm (l : List DSig) : (sortSigs l).Perm l := sortBy_perm _ l
 
+theorem except_map_ok {α β : Type} (f : α → β) (x : Except ImpErr α) (b : β)
+    (h : x.map f = .ok b) : ∃ a, x = .ok a ∧ f a = b := by
+  cases x with
+  | error e => simp [Except.map] at h
+  | ok a =>
+    simp only [Except.map] at h
+    injection h with h
+    exact ⟨a, rfl, h⟩
+
 /-- everything the three cases establish about an accepted import -/
 theorem importMsg_ok (m : DMsg) (t : ITree) (h : importMsg m = .ok t) :
     t.id = m.id ∧ t.sizeByte = (m.size : Int) ∧ m.size ≤ 8 ∧ t.bigEndian = headBE (sortSigs m.sigs) ∧
-    TopInv (8 * (m.size : Int)) t.top ∧ (m.sigs.map (·.name)).Nodup ∧
-    Matching m.exts m.sigs (entries t) := by
+    TopInv (8 * (m.size : Int)) t.top ∧ (m.sigs.map (·.name)).Nodup ∧ SelectorsOK m ∧
+    (∀ n ∈ t.nested, MuxWF n) ∧ (∀ n ∈ t.nested, LinkOK t.nested n) ∧
+    (∀ n, Item.mux n ∈ t.top → LinkOK t.nested n) ∧
+    (t.nested = [] → Matching m.exts m.sigs (entries t)) := by
   unfold importMsg at h
+  dsimp only at h
   split at h
   · cases h
-  · dsimp only at h
+  · rename_i hfirst
     split at h
     · cases h
-    · rename_i hfirst
+    · rename_i hsize
+      have hcap : (0 : Int) ≤ 8 * (m.size : Int) := by omega
+      have hsort := sortSigs_perm m.sigs
+      have hmemS : ∀ s, s ∈ sortSigs m.sigs ↔ s ∈ m.sigs := fun s => hsort.mem_iff
+      have hnd : ((sortSigs m.sigs).map (·.name)).Nodup := (firstLoop_names _ _ _ [] hfirst).1
+      have hinj : ∀ s ∈ sortSigs m.sigs, ∀ x ∈ sortSigs m.sigs, s.name = x.name → s = x :=
+        fun s hs x hx hn => List.inj_on_of_nodup_map hnd hs hx hn
+      have hndm : (m.sigs.map (·.name)).Nodup := ((hsort.map (·.name)).nodup_iff).1 hnd
       split at h
       · cases h
-      · rename_i hsize
-        have hcap : (0 : Int) ≤ 8 * (m.size : Int) := by omega
-        have hsort := sortSigs_perm m.sigs
-        have hmemS : ∀ s, s ∈ sortSigs m.sigs ↔ s ∈ m.sigs := fun s => hsort.mem_iff
-        have hnd : ((sortSigs m.sigs).map (·.name)).Nodup := (firstLoop_names _ _ _ [] hfirst).1
-        have hinj : ∀ s ∈ sortSigs m.sigs, ∀ x ∈ sortSigs m.sigs, s.name = x.name → s = x :=
-          fun s hs x hx hn => List.inj_on_of_nodup_map hnd hs hx hn
-        split at h
-        · cases h
-        · rename_i top hres
-          injection h with h
-          subst h
-          refine ⟨rfl, rfl, by omega, rfl, ?_⟩
-          have hndm : (m.sigs.map (·.name)).Nodup := ((hsort.map (·.name)).nodup_iff).1 hnd
-          split at hres
-          · -- no multiplexor
-            rename_i hmux
-            obtain ⟨hinv, hm⟩ := importPlain_case m.exts _ _ top hres hcap
-            refine ⟨hinv, hndm, ?_⟩
-            refine (hm ?_).perm hsort (List.Perm.refl _)
+      · rename_i top nested hres
+        injection h with h
+        subst h
+        refine ⟨rfl, rfl, by omega, rfl, ?_⟩
+        split at hres
+        · -- no multiplexor
+          rename_i hmux
+          obtain ⟨top0, hp, hpair⟩ := except_map_ok _ _ _ hres
+          injection hpair with e1 e2
+          subst e1; subst e2
+          obtain ⟨hinv, hm⟩ := importPlain_case m.exts _ _ top0 hp hcap
+          have hnomux : ∀ s ∈ sortSigs m.sigs, s.isMultiplexor = false := by
             intro s hs
             cases hb : s.isMultiplexor
             · rfl
             · have : s ∈ (sortSigs m.sigs).filter (·.isMultiplexor) := List.mem_filter.2 ⟨hs, hb⟩
               rw [hmux] at this
               cases this
-          · -- one multiplexor
-            rename_i mx hmux
-            obtain ⟨hinv, hm⟩ := importOne_case _ m.exts mx _ top hres hcap
-            refine ⟨hinv, hndm, ?_⟩
-            have hmxmem : mx ∈ (sortSigs m.sigs).filter (·.isMultiplexor) := by
-              rw [hmux]; exact List.mem_singleton.2 rfl
-            obtain ⟨hmx1, hmx2⟩ := List.mem_filter.1 hmxmem
-            refine (hm ?_ hmux).perm hsort (List.Perm.refl _)
+          refine ⟨hinv, hndm, ?_, fun n hn => (by cases hn), fun n hn => (by cases hn), ?_, fun _ => ?_⟩
+          · intro s hs hb
+            rw [hnomux s ((hmemS s).2 hs)] at hb; cases hb
+          · intro n hn
+            obtain ⟨_, hpp⟩ := importPlain_spec _ _ [] top0 hp (topInv_nil _ hcap)
+            have := (hpp.mem_iff).1 hn
+            rw [List.append_nil] at this
+            obtain ⟨s, _, hs'⟩ := List.mem_map.1 this
+            cases hs'
+          · exact (hm hnomux).perm hsort (List.Perm.refl _)
+        · -- one multiplexor
+          rename_i mx hmux
+          obtain ⟨top0, hp, hpair⟩ := except_map_ok _ _ _ hres
+          injection hpair with e1 e2
+          subst e1; subst e2
+          obtain ⟨hinv, hm⟩ := importOne_case _ m.exts mx _ top0 hp hcap
+          obtain ⟨hsel, hflat⟩ := importOne_flat _ m.exts mx _ top0 hp hcap hmux
+          have hmxmem : mx ∈ (sortSigs m.sigs).filter (·.isMultiplexor) := by
+            rw [hmux]; exact List.mem_singleton.2 rfl
+          obtain ⟨hmx1, hmx2⟩ := List.mem_filter.1 hmxmem
+          refine ⟨hinv, hndm, ?_, fun n hn => (by cases hn), fun n hn => (by cases hn), ?_, fun _ => ?_⟩
+          · intro s hs hb
+            have : s ∈ (sortSigs m.sigs).filter (·.isMultiplexor) := List.mem_filter.2 ⟨(hmemS s).2 hs, hb⟩
+            rw [hmux, List.mem_singleton] at this
+            rw [this]; exact hsel
+          · intro n hn c hc hcm
+            rw [hflat n hn c hc] at hcm; cases hcm
+          · refine (hm ?_ hmux).perm hsort (List.Perm.refl _)
             intro s hs
             cases hb : s.isMultiplexor
             · cases hn : (s.name == mx.name)
@@ -341,52 +597,28 @@ theorem importMsg_ok (m : DMsg) (t : ITree) (h : importMsg m = .ok t) :
               rw [hmux, List.mem_singleton] at this
               subst this
               simp
-          · -- several multiplexors
-            obtain ⟨hinv, hm⟩ := importMany_case _ m.exts _ _ top hres hcap
-            refine ⟨hinv, hndm, ?_⟩
-            refine (hm ?_ rfl).perm hsort (List.Perm.refl _)
-            intro s hs
-            cases hb : s.isMultiplexor
-            · cases hn : isMuxName ((sortSigs m.sigs).filter (·.isMultiplexor)) s
-              · rfl
-              · obtain ⟨x, hx, hxn⟩ := List.any_eq_true.1 hn
-                obtain ⟨hx1, hx2⟩ := List.mem_filter.1 hx
-                have := hinj s hs x hx1 (by have := hxn; simp at this; exact this.symm)
-                rw [this, hx2] at hb; cases hb
-            · apply List.any_eq_true.2
-              exact ⟨s, List.mem_filter.2 ⟨hs, hb⟩, by simp⟩
+        · -- several multiplexors
+          obtain ⟨hinv, hnwf, hnlink, htlink, hsel, hm⟩ := importMany_case _ m.exts _ _ top nested hres hcap rfl
+          refine ⟨hinv, hndm, ?_, hnwf, hnlink, htlink, fun hnil => ?_⟩
+          · intro s hs hb
+            exact hsel s (List.mem_filter.2 ⟨(hmemS s).2 hs, hb⟩)
+          · have h1 : ∀ s ∈ sortSigs m.sigs,
+                isMuxName ((sortSigs m.sigs).filter (·.isMultiplexor)) s = s.isMultiplexor := by
+              intro s hs
+              cases hb : s.isMultiplexor
+              · cases hn : isMuxName ((sortSigs m.sigs).filter (·.isMultiplexor)) s
+                · rfl
+                · obtain ⟨x, hx, hxn⟩ := List.any_eq_true.1 hn
+                  obtain ⟨hx1, hx2⟩ := List.mem_filter.1 hx
+                  have := hinj s hs x hx1 (by have := hxn; simp at this; exact this.symm)
+                  rw [this, hx2] at hb; cases hb
+              · apply List.any_eq_true.2
+                exact ⟨s, List.mem_filter.2 ⟨hs, hb⟩, by simp⟩
+            exact (hm h1 hnil).perm hsort (List.Perm.refl _)
 
 /-- in an accepted import every multiplexor has at least one bit -/
-theorem importMsg_selectors (m : DMsg) (t : ITree) (h : importMsg m = .ok t) : SelectorsOK m := by
-  obtain ⟨_, _, _, _, _, hnd, τ, h1, h2, h3⟩ := importMsg_ok m t h
-  intro s hs hmux
-  have hs' : s ∈ τ.map (·.1) := h1.mem_iff.2 hs
-  obtain ⟨p, hp, rfl⟩ := List.mem_map.1 hs'
-  obtain ⟨_, r2, _, r4⟩ := h3 p hp
-  -- the entry is a multiplexer node: its selector is positive and as wide as the file says
-  have he : p.2 ∈ entries t := h2.mem_iff.1 (List.mem_map.2 ⟨p, hp, rfl⟩)
-  unfold entries at he
-  obtain ⟨x, hx, hex⟩ := List.mem_flatMap.1 he
-  have hinv := (importMsg_ok m t h).2.2.2.2.1
-  cases x with
-  | sig l =>
-    simp only [itemEntries, List.mem_singleton] at hex
-    rw [hex] at r4
-    simp only at r4
-    rw [hmux] at r4; cases r4
-  | mux n =>
-    have hwf := hinv.mux n hx
-    simp only [itemEntries, List.mem_cons] at hex
-    rcases hex with hex | hex
-    · rw [hex] at r2
-      simp only at r2
-      have := calcSize_pos (n.groupCount - 1)
-      rw [← hwf.selW] at this
-      omega
-    · obtain ⟨c, _, hce⟩ := List.mem_map.1 hex
-      rw [← hce] at r4
-      simp only [childEntry] at r4
-      rw [hmux] at r4; cases r4.1
+theorem importMsg_selectors (m : DMsg) (t : ITree) (h : importMsg m = .ok t) : SelectorsOK m :=
+  (importMsg_ok m t h).2.2.2.2.2.2.1
 
 /-- in an accepted import no other signal carries the name of a multiplexor -/
 theorem importMsg_muxNames (m : DMsg) (t : ITree) (h : importMsg m = .ok t) : MuxNamesOK m := by
